@@ -25,6 +25,9 @@ SRC = {
     'syntaxerror': "def (:\n",
     'midfail': "x = f'{a:{{a:b}}}'\n",
     'fold': "SECONDS = 60 * 60 * 24\nMASK = 0xFF << 8 | 0x0F\nprint(SECONDS, MASK, 1 + 2.0, 5 % 3)\n",
+    # the same values with the other numeric type, and the same literal text as bytes: anything memoised by value alone collides
+    'fold2': "SECONDS = 43200.0 * 2\nMASK = 65295.0 + 0\nprint(SECONDS, MASK, 1 + 2, 5.0 % 3, 0.0 * -1, True + True)\n",
+    'hoist2': "def many():\n    return [b'long literal one', b'long literal one', b'long literal one', 'bytes literal', 'bytes literal', 'bytes literal', 1, 1, 1, 1, 0, 0, 0, 0, 1.0, 1.0, 1.0, 1.0]\nprint(many())\n",
 }
 
 
@@ -44,6 +47,8 @@ CALLS = {
     'fstring': lambda sh: python_minifier.minify(SRC['fstring']),
     'hoist': lambda sh: python_minifier.minify(SRC['hoist'], rename_globals=True),
     'fold': lambda sh: python_minifier.minify(SRC['fold']),
+    'fold2': lambda sh: python_minifier.minify(SRC['fold2']),
+    'hoist2': lambda sh: python_minifier.minify(SRC['hoist2'], rename_globals=True),
     'awslambda': lambda sh: python_minifier.awslambda(SRC['rename'], entrypoint='handler'),
     'syntaxerror': lambda sh: python_minifier.minify(SRC['syntaxerror']),
     'midfail': lambda sh: python_minifier.minify(SRC['midfail']),
